@@ -2800,6 +2800,18 @@ func (a *Agent) handlePeerDisconnect(conn *peer.Connection, err error) {
 	// Clean up relay streams involving this peer
 	a.cleanupRelaysForPeer(peerID)
 
+	// Tunnels that ended or began at this agent over the lost connection are
+	// over as well: frames in flight are gone, so letting them resume over a
+	// later connection to the same peer would deliver a byte stream with a
+	// silent gap (and the new connection's stream ids are a new id space).
+	if h := a.exitHandler; h != nil {
+		h.CloseConnectionsForPeer(peerID)
+	}
+	if a.forwardHandler != nil {
+		a.forwardHandler.CloseConnectionsForPeer(peerID)
+	}
+	a.streamMgr.ResetStreamsForPeer(peerID, protocol.ErrHostUnreachable)
+
 	// Clean up routes learned from this peer
 	a.routeMgr.HandlePeerDisconnect(peerID)
 	a.routeMgr.HandlePeerDisconnectDomain(peerID)
